@@ -510,7 +510,7 @@ func wgModelOpt(prop string) gen.ModelOpt {
 	case "C10":
 		return gen.ModelOpt{Conditions: true}
 	case "C11":
-		return gen.ModelOpt{Wildcards: 3, Conditions: false}
+		return gen.ModelOpt{Wildcards: 4, Conditions: false, MaxTerm: 5}
 	case "C06":
 		return gen.ModelOpt{Hazards: true, Wildcards: 2}
 	}
@@ -547,6 +547,13 @@ func runWeighted(run *core.Run) {
 		opt := mopt
 		if i%7 == 3 {
 			opt.MaxRel, opt.MaxObj = 7, 3
+		}
+		if i%5 == 1 && opt.MaxTerm < 4 {
+			// several user types and public types: lists of three and more entries
+			opt.MaxTerm = 4
+			if opt.Wildcards < 3 {
+				opt.Wildcards = 3
+			}
 		}
 		m := gen.Model(r, opt)
 		checkWeightedModel(run, m, r, o)
